@@ -14,7 +14,7 @@
 (* under backend flags f.                                                  *)
 (***************************************************************************)
 EXTENDS Naturals, Sequences, FiniteSets, TLC
-TypeK == {"opaque", "struct", "enum"}
+TypeK == {"opaque", "struct", "enum", "outstruct"}
 SelfK == {"none", "ref", "mut", "val"}
 ParamK == {"same_ref", "same_mut", "same_opt", "same_val", "prim"}
 RetK == {"unit", "write", "self", "res_self", "opt_self", "prim", "opt_prim", "opt_unit", "res_unit", "res_prim",
@@ -26,10 +26,12 @@ Flags == [constructors : BOOLEAN, fallible_constructors : BOOLEAN, static_access
 \* what the language/lowering gate lets one write at all (opaques are passed by reference, structs and enums by value)
 WellTyped(m) ==
   /\ (m.tk = "opaque" => m.self \in {"none", "ref", "mut"})
-  /\ (m.tk # "opaque" => m.self \in {"none", "val"})
+  /\ (m.tk \in {"struct", "enum"} => m.self \in {"none", "val"})
+  /\ (m.tk = "outstruct" => m.self = "none")                       \* out-structs are never inputs
   /\ \A i \in 1..Len(m.params) :
         (m.tk = "opaque" => m.params[i] \in {"same_ref", "same_mut", "same_opt", "prim"})
-     /\ (m.tk # "opaque" => m.params[i] \in {"same_val", "prim"})
+     /\ (m.tk \in {"struct", "enum"} => m.params[i] \in {"same_val", "prim"})
+     /\ (m.tk = "outstruct" => m.params[i] = "prim")
 
 \* ---- return-type classes, as lower_return_type sees them ---------------------------------
 \* Option<Box<T>> / Option<&T> is an *infallible* return of an optional pointer; Option of anything else is "nullable"
